@@ -764,7 +764,7 @@ func (w *run) api(st *rpcState, name string, f func() error) error {
 	if t1.After(limit.Add(slack)) {
 		w.e.Violate("blocked_past_deadline", "rpc %d: %s returned %v after the deadline", st.r.ID, name, t1.Sub(st.deadline))
 	}
-	if err != nil && err != io.EOF && t0.Before(st.deadline) && t1.After(st.deadline) {
+	if err != nil && err != io.EOF && t0.Before(st.deadline) && !t1.Before(st.deadline) {
 		// blocked across the deadline: the error is DEADLINE_EXCEEDED unless a
 		// real final status arrived in the same instant
 		if c := status.Code(err); c != codes.DeadlineExceeded && c != codes.Canceled {
